@@ -7,7 +7,7 @@ CONSTANTS
   NFiles = 2
   EditKinds = {"defs", "value"}
   Linking = TRUE
-  StaleOps = FALSE
+  StaleOps = TRUE
 INIT Init
 NEXT Next
 VIEW View
